@@ -340,22 +340,20 @@ theorem maintTrait_quiet (h : Heap) (k k' : HKey) (mk : MKind) (g : Graph) (o : 
   cases mk with
   | trait =>
     simp only []
-    have r1 : QuietInv (match valObjects old with
-        | w :: _ =>
-          (match (addRemove h k' true true g w H).err with
-           | some .notifierNotFound => ⟨(addRemove h k' true true g w H).H, none⟩
-           | _ => addRemove h k' true true g w H)
-        | [] => ⟨H, none⟩ : Res).H k := by
+    have r1 : QuietInv (removeOld h k' g old H).H k := by
+      unfold removeOld
       split
       · rename_i w _ _
         have := addRemove_quiet h k k' g hg true true w H hq
+        simp only []
         split
         · exact this
         · exact this
       · exact hq
     split
     · exact r1
-    · split
+    · unfold addNew
+      split
       · exact addRemove_quiet h k k' g hg false true _ _ r1
       · exact r1
   | added =>
